@@ -2,6 +2,7 @@ import WrglModel.Driver.Util
 import WrglModel.Model.Merge
 import WrglModel.Model.MergeCols
 import WrglModel.Spec.Merge
+import WrglModel.Spec.MergeBase
 open Lean
 namespace Wrgl.Drv
 
@@ -372,6 +373,43 @@ def handleC05 (op : String) (input impl : Json) : Except String Json := do
     let (viol, trace) ← hReplay pkNames tables.toArray (steps.zip isteps) {} [] []
     let viol := viol.eraseDups
     return reply (Json.mkObj [("merges", jStrs trace)]) viol.isEmpty viol
+  | "merge-cli-pull" =>
+    -- a tree-shaped history on a remote, three heads; `wrgl pull BRANCH REMOTE h1 h2` merges BRANCH (= h0)
+    -- with both at once. The branches share a base: the best common ancestor of ALL the heads on the
+    -- commit graph (`bestCommonAncestors`, Spec/MergeBase.lean; `C05_merge_base_spec`). BRANCH must end up
+    -- holding the by-name three-way resolution of the heads' tables over that commit's table. The lines
+    -- of the history own disjoint rows, so the resolution has no conflict (else the case is not judged).
+    let pkNames ← asRow (fldD input "pkNames" (Json.arr #[]))
+    let tables ← (← asArr (fldD input "tables" (Json.arr #[]))).mapM asHTab
+    let nodesJ ← asArr (fldD input "nodes" (Json.arr #[]))
+    let heads ← asNatList (fldD input "heads" (Json.arr #[]))
+    let nodes ← nodesJ.mapM fun n => do
+      return ((← asNatList (fldD n "parents" (Json.arr #[]))), (← natFld n "table"))
+    if resClass impl == "panic" then return reply Json.null false ["no-panic"]
+    if resClass impl != "ok" then return reply Json.null false ["unexpected-error"]
+    let g : Graph := (List.range nodes.length).zip nodes |>.map (fun (i, ps, t) => { id := i, time := Int.ofNat i, parents := ps, table := t })
+    let tabOf := fun (n : Nat) => (((nodes[n]?).bind (fun nd => tables[nd.2]?))).getD default
+    let bases := bestCommonAncestors g heads
+    let note := fun (s : String) (b : List Nat) => Json.mkObj [("judged", Json.str s), ("base", jNats b)]
+    match bases with
+    | [c] =>
+      -- a head that is the base itself makes this a fast-forward question (C10), not a three-way merge
+      if heads.contains c || heads.length < 2 then return reply (note "not-judged:a-head-is-the-base" bases) true []
+      match threeWayByName pkNames (tabOf c) (heads.map tabOf) with
+      | none => return reply (note "not-judged:conflict" bases) true []
+      | some want =>
+        let v := fldD impl "val" Json.null
+        let failed := (fldD v "failed" (Json.bool false)).getBool?.toOption.getD false
+        if failed then return reply (note "three-way" bases) false ["unexpected-error"]
+        let got ← match fldD v "branch" Json.null with
+          | Json.null => pure none
+          | bj => pure (some (← asHTab bj))
+        let viol : List String := match got with
+          | none => ["every-branch-exported"]
+          | some e => (if sameColumnNames e want then [] else ["columns-under-their-own-names"]) ++
+                      (if sameRowsByName e want then [] else ["non-conflicting-changes-kept-and-untouched-rows-unchanged"])
+        return reply (Json.mkObj [("judged", Json.str "three-way"), ("base", jNats bases), ("rows", jNat want.rows.length)]) viol.isEmpty viol
+    | _ => return reply (note "not-judged:no-single-best-common-ancestor" bases) true []
   | _ => throw s!"unknown op {op}"
 
 end Wrgl.Drv
